@@ -62,6 +62,19 @@ Theorem C12_segmented_only_if_allowed : forall s cnt, s_refuse s cnt = None -> 1
 Proof. exact s_refuse_none. Qed.
 Print Assumptions C12_segmented_only_if_allowed.
 
+(* the limit on the number of segments of a response is the one decoded from the request being answered — and the
+   segmented-response-accepted flag is the request's SA bit — whatever the record of the client says; the check itself
+   never looks at the record *)
+Theorem C12_response_segment_limit_from_request : forall a st dec ms, a_type a = 0 ->
+  decode_max_apdu_length_accepted (a_maxresp a) = Ok (Some dec) -> dec_maxsegs (a_maxsegs a) = Ok ms ->
+  s_maxsegs (h_s (fst (s_idle a st))) = ms /\ s_sra (h_s (fst (s_idle a st))) = a_sa a.
+Proof. exact s_idle_maxsegs. Qed.
+Print Assumptions C12_response_segment_limit_from_request.
+
+Theorem C12_refusal_ignores_record : forall s d cnt, s_refuse (set_dinfo_f d s) cnt = s_refuse s cnt.
+Proof. exact s_refuse_ignores_record. Qed.
+Print Assumptions C12_refusal_ignores_record.
+
 (* ... otherwise the requester gets an abort (segmentation not supported / APDU too long) and nothing else is sent *)
 Theorem C12_segments_le_max_else_abort : forall a st cnt r, a_type a = 3 -> h_outs st = [] ->
   seg_count (zlen (a_data a)) (server_segsize (h_s st)) = Ok cnt -> s_refuse (h_s st) cnt = Some r ->
